@@ -5,6 +5,7 @@ tests, run the given quick checks against each ($LSF_REPO) and list the survivor
 equivalent mutant or a gap in the checks' inputs.
 
 usage: mutate.py <file relative to asl-workflow-engine/py> <first line> <last line> <n mutants> <seed> <check ids ...>
+       mutate.py --rerun <log.jsonl> <k,k,...> [--seed n] <check ids ...>   logged mutants again, against other checks
        mutate.py --hand <spec.json> [id ...]     hand-made mutants: a JSON list of {"id", "file", "find", "replace", "checks",
                                                  "note"} — `find` must occur exactly once in the file ("count": n allows n and
                                                  replaces all); "seed" (default: the mutant's own 90000+k) fixes VERIF_SEED
@@ -143,9 +144,32 @@ def hand(spec, only):
     print("TALLY", json.dumps(tally))
 
 
+def rerun(logfile, ks, checks, fixed_seed=None):
+    """second run of logged single-line mutants (by their k) against other checks — for survivors whose behaviour belongs to
+    a property outside the checks their range was given, and to confirm a closed gap"""
+    want = [int(x) for x in ks.split(",")]
+    seen, jobs = set(), []
+    for l in open(logfile):
+        r = json.loads(l)
+        if r.get("k") in want and r["k"] not in seen and "line" in r:
+            seen.add(r["k"])
+            lines = open(os.path.join(SRC, "asl-workflow-engine", "py", r["file"])).read().splitlines(True)
+            assert lines[r["line"] - 1].rstrip() == r["old"], "source changed under mutant %d" % r["k"]
+            jobs.append((r["k"], r["file"], r["line"] - 1, r["new"] + "\n", lines[r["line"] - 1], checks, fixed_seed))
+    with concurrent.futures.ThreadPoolExecutor(max_workers=int(os.environ.get("MUT_JOBS", "6"))) as ex:
+        for r in ex.map(run_mutant, jobs):
+            log(r, rerun=True)
+
+
 def main():
     if sys.argv[1] == "--hand":
         return hand(sys.argv[2], sys.argv[3:])
+    if sys.argv[1] == "--rerun":          # --rerun <log.jsonl> <k,k,...> [--seed n] <checks...>
+        rest = sys.argv[4:]
+        fs = None
+        if rest and rest[0] == "--seed":
+            fs, rest = int(rest[1]), rest[2:]
+        return rerun(sys.argv[2], sys.argv[3], rest, fs)
     rel, lo, hi, n, seed = sys.argv[1], int(sys.argv[2]), int(sys.argv[3]), int(sys.argv[4]), int(sys.argv[5])
     checks = sys.argv[6:]
     rng = random.Random(seed)
